@@ -64,6 +64,11 @@ CLAIMED = {
   note="Trusted: Go type checker, go/ssa, VTA call graph, the explorer's facts (interval reasoning on len tests); axiom: registry-dispatched handlers receive len(args) >= 1; one tabled nil-invariant (ProcessRecoverLockData).",
   technique="path-sensitive SSA bounds/nil-guard dataflow (minimum-length and non-nil facts, interprocedural argument-list lengths), custom checker",
   ref="DESIGN.md section 4 C13"),
+ "C08": dict(
+  text="Static analysis of the log reader/writer: no reader returns an error value that the path proves nil after a failure was detected (29 returns classified), ReadLock succeeds only on the full-record equality, the header checks, truncation of a sub-header file before re-heading, the value blob consumed before any skip decision and no callback after a failed value read, records written before values in Flush, and values buffered only together with records. The torn-record acceptance found this way was reproduced and repaired (fix: commit). Behaviour at each byte residue, crashes between the two writes and fsync timing need crash images and are not decided, hence 'other'.",
+  note="Trusted: Go type checker, go/ssa, the explorer's facts and branch history; bufio.Reader.Read contract.",
+  technique="path-sensitive SSA error-discipline and ordering analysis (nil-proven error returns, must-precede), custom checker",
+  ref="DESIGN.md section 4 C08"),
 }
 
 NA = {
